@@ -8,10 +8,12 @@ from fractions import Fraction
 from .. import sx
 from ..impl import run_impl
 from ..model import run_model
+from . import _c18_gen
 
 ASSUMPTIONS = [
-    'model variants (remove_samples de-duplication, same_scaling full comparison: behavioural probe; accumulated-offset bookkeeping and '
-    'affine-map comparison in concatenate: presence of DataSet.get_scaling_offset / DataSet._same_affine_scaling) are selected per run',
+    _c18_gen.ASSUMPTION,
+    'the model is the repaired code (variant [1,1,1,1]: remove_samples de-duplication, same_scaling full comparison, accumulated offset, concatenate '
+    'comparing the accumulated maps); the implementation is probed for the four repairs and a missing one is reported as repair-regressed',
     'remove_labels: the rnd.sample index list is read off the implementation (labels that became -1) and validated by the model; '
     'split_one_vs_others: the CPython set order of the labels is read off the implementation and validated by the model; its result sets (rational labels) '
     'are compared with the model but not kept in the store; calls on float-dtype label arrays (list-index TypeError) are judged by the predicates only',
@@ -31,6 +33,7 @@ ASSUMPTIONS = [
 ]
 
 TOL = Fraction(1, 10 ** 9)
+PINNED_VARIANT = (1, 1, 1, 1)
 OPN = {'scale_range': 1, 'scale_factor': 2, 'shift_value': 3, 'revert': 4, 'shuffle': 5, 'mbf': 6, 'split_labels': 7,
        'split_pieces': 8, 'split_without_labels': 9, 'remove_samples': 10, 'concatenate': 11, 'same_scaling': 12, 'copy': 14,
        'remove_labels': 15, 'getters': 16}
@@ -1056,7 +1059,9 @@ CORPUS = [
 
 
 def run(chk):
-    chk.coq_obligations()
+    gen_info = _c18_gen.regenerate(chk)
+    chk.coq_obligations(extra_props=_c18_gen.EXTRA_PROPS)
+    gen_problem = _c18_gen.diagnose(chk, gen_info)
     n = chk.n(3000, 30000)
     nbig = chk.n(52, 400)
     try:                                           # import once in the parent: the forked workers inherit the loaded library
@@ -1071,15 +1076,25 @@ def run(chk):
         + [gen_case(chk.rng, chk.tier) for _ in range(n)]
     impl = run_impl(impl_run, cases, limit=240)
     judge(chk, cases, impl, get_variant(chk))
+    _c18_gen.finish(chk, gen_info, gen_problem)
 
 
 def get_variant(chk=None):
     st, v = run_impl(probe_variant, [None])[0]
     v = v if st == 'ok' else [0, 0, 0, 0]
+    probed = list(v)
+    v = list(PINNED_VARIANT)            # all four repairs are in the repository: the model IS the repaired code
+    if chk is not None and probed != v:
+        names = ['remove_samples de-duplicates its indices', 'same_scaling compares the whole arrays', 'DataSet.get_scaling_offset (accumulated offset)',
+                 'DataSet._same_affine_scaling (concatenate compares the accumulated maps)']
+        chk.violation('probe:C18/repairs', 'repair-regressed', {'probe': ''.join(map(str, probed))}, dict(kind='probe', probed=probed),
+                      dict(missing=[n for n, a, b in zip(names, probed, v) if a != b],
+                           note='the behavioural / structural probe of the implementation no longer shows a committed repair; the model stays the repaired code'),
+                      failing_input=False)
     if chk is not None:
         chk.extra['model_variant'] = dict(remove_samples_dedup=v[0], same_scaling_full_arrays=v[1], accumulated_offset=v[2],
                                           concatenate_compares_affine_maps=v[3],
-                                          note='selected by probing the implementation; the repository today is [1,1,0,0]')
+                                          probed=probed, note='pinned to the repaired code [1,1,1,1]; the probe of the implementation is recorded and a deviation is a violation')
     return v
 
 
